@@ -402,6 +402,9 @@ Proof.
   intros _. right. repeat split; auto. discriminate.
 Qed.
 
+Lemma sig_schema_std : forall q, sig_schema std_cfg q = map fst (q_cols q).
+Proof. intro q. unfold sig_schema. destruct (q_inline q); reflexivity. Qed.
+
 Lemma find_method_In : forall name ms mi, find_method name ms = Some mi -> In mi ms.
 Proof.
   intros name ms. induction ms as [|m r IH]; intros mi H; simpl in *; [discriminate|].
@@ -417,7 +420,7 @@ Lemma serve_one_invoked : forall ms impl q,
     find_method name ms = Some mi /\
     run_stages std_cfg false mi (kwargs_of (q_cols q)) (map fst (q_cols q)) std_order = None.
 Proof.
-  intros ms impl q. unfold serve_one. cbn [c_order_sock std_cfg].
+  intros ms impl q. unfold serve_one. rewrite sig_schema_std. cbn [c_order_sock std_cfg].
   destruct (read_request q) as [[e r]|[name kw]] eqn:Er.
   - cbn [o_invoked sock_reject]. split; [discriminate | intros [n [mi [H _]]]; discriminate].
   - assert (Hkw : kw = kwargs_of (q_cols q)) by (apply read_request_inr in Er; tauto). subst kw.
@@ -470,7 +473,7 @@ Proof.
   assert (Hr : read_request q = inr (name, kwargs_of (q_cols q))) by (apply read_request_inr; split; [exact Hfr | reflexivity]).
   assert (Hs : run_stages std_cfg false mi (kwargs_of (q_cols q)) (map fst (q_cols q)) std_order = None).
   { apply (stages_iff_conforming false mi q name Hw Hfr). tauto. }
-  unfold serve_one. cbn [c_order_sock std_cfg]. rewrite Hr, (str_eqb_neq _ _ Ht), Hf, Hs, Ha.
+  unfold serve_one. rewrite sig_schema_std. cbn [c_order_sock std_cfg]. rewrite Hr, (str_eqb_neq _ _ Ht), Hf, Hs, Ha.
   destruct (impl name (declared_args mi q)); reflexivity.
 Qed.
 
@@ -478,7 +481,7 @@ Theorem socket_rejected_error_stream : forall ms impl q,
   o_invoked (serve_one std_cfg ms impl q) = false -> q_method q <> MKName transport_options ->
   exists c, o_err (serve_one std_cfg ms impl q) = Some c.
 Proof.
-  intros ms impl q. unfold serve_one. cbn [c_order_sock std_cfg].
+  intros ms impl q. unfold serve_one. rewrite sig_schema_std. cbn [c_order_sock std_cfg].
   destruct (read_request q) as [[e r]|[name kw]] eqn:Er.
   - intros _ _. simpl. eauto.
   - apply read_request_inr in Er. destruct Er as [[Hm _] _].
@@ -495,7 +498,7 @@ Theorem socket_method_error : forall ms impl q,
   exists name args e, q_method q = MKName name /\ impl name args = BRaise e /\
     o_err (serve_one std_cfg ms impl q) = Some (ecls e).
 Proof.
-  intros ms impl q. unfold serve_one. cbn [c_order_sock std_cfg].
+  intros ms impl q. unfold serve_one. rewrite sig_schema_std. cbn [c_order_sock std_cfg].
   destruct (read_request q) as [[e r]|[name kw]] eqn:Er; [simpl; discriminate|].
   apply read_request_inr in Er. destruct Er as [[Hm _] _].
   destruct (str_eqb name transport_options); [simpl; discriminate|].
@@ -702,3 +705,12 @@ Proof.
     rewrite Hf in Hf'. inversion Hf'; subst.
     exfalso. apply Hlen. unfold schema_conforms in Hs. rewrite <- Hs, map_length. reflexivity.
 Qed.
+
+(* a request routed through shared memory is judged on the batch its arguments are decoded from: the schema of the
+   inline pointer batch has no influence on the outcome *)
+Definition with_inline (q : request) (i : option (list field)) : request :=
+  {| q_method := q_method q; q_version := q_version q; q_cols := q_cols q; q_rows := q_rows q; q_inline := i |}.
+
+Theorem shm_pointer_schema_irrelevant : forall ms impl q i,
+  serve_one std_cfg ms impl (with_inline q i) = serve_one std_cfg ms impl (with_inline q None).
+Proof. intros ms impl q i. unfold serve_one. rewrite !sig_schema_std. reflexivity. Qed.
